@@ -971,6 +971,9 @@ func runInterleave(r *vs.Rand, i int, seed uint64, out *vs.Out) {
 		}
 		k := kids[r.Intn(len(kids))]
 		choice := r.Intn(11)
+		if r.Chance(10) {
+			choice = 12
+		}
 		if len(orphans) > 0 && r.Chance(35) {
 			// aimed at an adoption: the orphan is taken by the other parent, deleted, replaced or relabelled meanwhile
 			k = orphans[r.Intn(len(orphans))]
@@ -990,6 +993,32 @@ func runInterleave(r *vs.Rand, i int, seed uint64, out *vs.Out) {
 				md["labels"] = map[string]interface{}{"app": "nomatch"}
 				s.Put(k.c.group(), k.c.Resource, o)
 			}
+		case 12: // somebody else strips the controller's own finalizer from the live parent (or puts it there): what the sync holds is stale
+			fin := "metacontroller.io/compositecontroller-" + cfg.Name
+			s.Mutate(parentGroup, cfg.parentResource(), nsOfKey(sc.key), "p1", func(o map[string]interface{}) {
+				md := o["metadata"].(map[string]interface{})
+				fs, _ := md["finalizers"].([]interface{})
+				var out []interface{}
+				had := false
+				for _, f := range fs {
+					if f == fin {
+						had = true
+						continue
+					}
+					out = append(out, f)
+				}
+				if !had {
+					out = append(out, fin)
+				}
+				if _, del := md["deletionTimestamp"]; del && len(out) == 0 {
+					out = append(out, "example.com/blocker") // a parent pending deletion stays only while some finalizer holds it
+				}
+				if len(out) == 0 {
+					delete(md, "finalizers")
+				} else {
+					md["finalizers"] = out
+				}
+			})
 		case 10: // somebody else adds or removes a finalizer of their own on the parent
 			s.Mutate(parentGroup, cfg.parentResource(), nsOfKey(sc.key), "p1", func(o map[string]interface{}) {
 				md := o["metadata"].(map[string]interface{})
